@@ -1,11 +1,12 @@
 --------------------------- MODULE Export_Struct ---------------------------
-EXTENDS Fields, Update, Json, SequencesExt
+EXTENDS Fields, Update, Default, Json, SequencesExt
 CONSTANT ScenOut
 FRec(p) == [kind |-> "field", prog |-> p]
 ARec(a) == [kind |-> "acc", side |-> a.side, setting |-> a.setting]
+DRec(p) == [kind |-> "default", prog |-> p]
 URec(p) == [kind |-> "update", prog |-> p, vals |-> SetToSeq({SetToSeq(v) : v \in Valuations})]
 ASSUME \A p \in UProgs, nz \in Valuations, f \in {"A", "N", "P", "L"} : Must(p, f, nz) \in {"open", Oper(p, f, nz)}
-ASSUME ndJsonSerialize(ScenOut, SetToSeq({FRec(p) : p \in Progs}) \o SetToSeq({ARec(a) : a \in AccProgs}) \o SetToSeq({URec(p) : p \in UProgs}))
+ASSUME ndJsonSerialize(ScenOut, SetToSeq({FRec(p) : p \in Progs}) \o SetToSeq({ARec(a) : a \in AccProgs}) \o SetToSeq({URec(p) : p \in UProgs}) \o SetToSeq({DRec(p) : p \in {q \in DProgs : DValid(q)}}))
 ASSUME PrintT(<<"exported", Cardinality(Progs), Cardinality(AccProgs), Cardinality(UProgs)>>)
 VARIABLE x
 Init == x = 0
